@@ -56,6 +56,7 @@ type Config struct {
 	Trace          bool
 	RepoPrefix     string // import path prefix of the repository under test
 	MaxPaths       int
+	MaxWall        float64 // seconds per harness (0 = unlimited)
 }
 
 type Machine struct {
